@@ -1496,7 +1496,7 @@ func init() {
 		Meta: func(c *core.Ctx) core.Meta {
 			return core.Meta{
 				Level: "fault_enumeration",
-				Rule: "directed schedule enumeration, one scenario per child process: for every (component, operation, hook point after the operation's closed/done check) the user goroutine is parked at the point, Close() (or the coroutine's completion) runs to completion - or until it blocks on a lock the parked goroutine holds -, the user is released, both are awaited with the stuck detector, then post-close probes run. Handler {Post checked / blocked in send} and Actor {Send, Spawn} x channel capacity {0,2}; BufferedChannelQueue {Take, TakeWithTimeout, Poll (2 points), GetChannel, Offer (2 points), Put, Count} x {empty, pre-filled}, the loader and the node-pool goroutine parked at 6 points with a non-empty overflow, blocked consumers, queue churn (thousands of short-lived queues: 1..4 producers on the overflow path and 0..2 consumers racing one Close each), three Offer / Put producers on a COMPLETELY full queue (5 capacity/buffer pairs, no consumer) with Close arriving at once or 3 ms later, everything-after-close; coroutines {caller past the done check, close parked after the flag / after the lock, YieldFrom after done, replies racing caller completion}; WorkerPool {Schedule checked/offered, worker at 4 points, idle workers, spawn loop, ScheduleWithTimeout on a full queue, after close} x isJobQueueClosedWhenClose {true,false}; " +
+				Rule: "directed schedule enumeration, one scenario per child process: for every (component, operation, hook point after the operation's closed/done check) the user goroutine is parked at the point, Close() (or the coroutine's completion) runs to completion - or until it blocks on a lock the parked goroutine holds -, the user is released, both are awaited with the stuck detector, then post-close probes run. Handler {Post checked / blocked in send} and Actor {Send, Spawn} x channel capacity {0,2}; BufferedChannelQueue {Take, TakeWithTimeout, Poll (2 points), GetChannel, Offer (2 points), Put, Count} x {empty, pre-filled}, the loader and the node-pool goroutine parked at 6 points with a non-empty overflow, blocked consumers, Close() while 2-3 jobs are in progress for worker batch sizes 1..4 and both job-queue policies (panic handler silent), queue churn (thousands of short-lived queues: 1..4 producers on the overflow path and 0..2 consumers racing one Close each), three Offer / Put producers on a COMPLETELY full queue (5 capacity/buffer pairs, no consumer) with Close arriving at once or 3 ms later, everything-after-close; coroutines {caller past the done check, close parked after the flag / after the lock, YieldFrom after done, replies racing caller completion}; WorkerPool {Schedule checked/offered, worker at 4 points, idle workers, spawn loop, ScheduleWithTimeout on a full queue, after close} x isJobQueueClosedWhenClose {true,false}; " +
 					"a panic in a calling goroutine is caught by recover, a panic in a library goroutine kills the child and is attributed by the parent, the pool's panic handler must stay silent; plus PRNG stress (1..8 users, close after 0..400 us, yields at the hook points) and a -race pass. distinct_nontrivial = distinct scenarios",
 				Assumptions: []string{"an operation that raced the close may return a real item, empty/timeout/full or the closed error, but never an invented value",
 					"unsynchronised reads of Handler/Actor isClosed are reported by the race detector as part of the same finding and do not decide separately",
